@@ -17,7 +17,7 @@ func init() {
 		ID:    "C20",
 		Level: "exploration",
 		Rule: "one history per case: a coding or non-coding transcript on a random location chain (exon -> transcript -> gene -> 0..4 orientable regions -> chromosome; now and then 100..1000 links deep), " +
-			"then up to 8 operations from {accepted SetExons (random cuts, abutting/single exon, shuffled), rejected SetExons (overlap, foreign location, no zero start), accepted/rejected Exons.Add on the transcript's own slice and on caller slices with and without spare capacity}; " +
+			"then up to 8 operations from {accepted SetExons (random cuts, abutting/single exon, shuffled), rejected SetExons (overlap, foreign location, no zero start), accepted/rejected Exons.Add on the transcript's own slice and on caller slices with and without spare capacity, re-orientation of the transcript, the gene or a region (regions and genes may report NotOriented)}; " +
 			"all invariants re-checked after every operation. Non-trivial = at least 2 exons or a rejected update; distinct = canonical text of chain+operations",
 		Batches: func(t string) int {
 			if t == "thorough" {
